@@ -427,7 +427,7 @@ def l3(ctx):
     tk = crate.free_fn("tokenize")
     if len(tk) != 1:
         raise mir.AnchorMissing("parse::tokenize")
-    t = tk[0]
+    t = mir.inline_view(crate, tk[0], keep=("crop_ident", "named", "ident_char"))       # (the per-token part may live in a `next_token` helper)
     tok_lits = set()
     for c in t.calls:
         if c.callee and c.callee.name in ("starts_with", "strip_prefix", "split_once", "eq") and len(c.args) > 1 and c.args[1]["k"] == "const" and "text" in c.args[1]:
